@@ -102,7 +102,7 @@ type mItem struct {
 	Item
 	op         int  // index of the op that added it
 	checkStart bool // the call named a start number
-	seq        int  // index among all list items of the case
+	seq        int  // index among all list items the case requests
 }
 
 type bodyEl struct {
@@ -118,8 +118,9 @@ type state struct {
 	doc *document.Document
 	cur int // op being executed
 
-	body  []bodyEl
-	items []*mItem
+	body      []bodyEl
+	items     []*mItem
+	requested int // list items requested so far (added or rejected)
 
 	fn, en               map[string]string
 	fnRemoved, enRemoved []string
@@ -190,10 +191,12 @@ func (s *state) snapshot(what string) *snap {
 // lists
 
 func (s *state) addItem(it Item, checkStart bool, p *document.Paragraph, added bool) {
+	seq := s.requested
+	s.requested++
 	if !added {
-		return // rejected (nil paragraph / error): nothing was requested into the document
+		return // rejected (nil paragraph / error): nothing was put into the document
 	}
-	m := &mItem{Item: it, op: s.cur, checkStart: checkStart, seq: len(s.items)}
+	m := &mItem{Item: it, op: s.cur, checkStart: checkStart, seq: seq}
 	s.items = append(s.items, m)
 	s.body = append(s.body, bodyEl{kind: "p", text: it.Text})
 }
@@ -243,6 +246,7 @@ func (s *state) doList(op Op) {
 				s.addItem(it, true, nil, true)
 			}
 		case err != nil && n == 0: // rejected as a whole
+			s.requested += len(items)
 		default:
 			s.fail("C15.L0", "CreateMultiLevelList with %d items returned err=%v and appended %d elements", len(items), err, n)
 			s.listsOff = true
